@@ -53,14 +53,22 @@ Inductive hcall :=
 | SendIn (p : peer)        (* send_handshake *)
 | RemOut (p : peer) | RemIn (p : peer).
 
-Definition call (h : hs) (c : hcall) : hs :=
+(* A completed handshake queued in `ready` belongs to the substream registered under its key at that moment.
+   Repaired code (`forget`): it goes away with that substream — when the substream is removed and when another one
+   is registered under the key. The original code (call0) left it in the queue. *)
+Definition forget (k : key) (r : list (key * bool)) : list (key * bool) := filter (fun e => negb (fst e =? k)) r.
+
+Definition call_gen (fx : bool) (h : hs) (c : hcall) : hs :=
+  let fg := fun k r => if fx then forget k r else r in
   match c with
-  | NegOut p => mkHs (put (mkE (mkkey p true) SSend io0 false) (ents h)) (ready h)
-  | ReadIn p => mkHs (put (mkE (mkkey p false) SRead io0 false) (ents h)) (ready h)
-  | SendIn p => mkHs (put (mkE (mkkey p false) SSend io0 false) (ents h)) (ready h)
-  | RemOut p => mkHs (del (mkkey p true) (ents h)) (ready h)
-  | RemIn p => mkHs (del (mkkey p false) (ents h)) (ready h)
+  | NegOut p => mkHs (put (mkE (mkkey p true) SSend io0 false) (ents h)) (fg (mkkey p true) (ready h))
+  | ReadIn p => mkHs (put (mkE (mkkey p false) SRead io0 false) (ents h)) (fg (mkkey p false) (ready h))
+  | SendIn p => mkHs (put (mkE (mkkey p false) SSend io0 false) (ents h)) (fg (mkkey p false) (ready h))
+  | RemOut p => mkHs (del (mkkey p true) (ents h)) (fg (mkkey p true) (ready h))
+  | RemIn p => mkHs (del (mkkey p false) (ents h)) (fg (mkkey p false) (ready h))
   end.
+Definition call := call_gen true.
+Definition call0 := call_gen false.
 
 (* ---- what the environment does to the carrier of the substream under key k, and its timer ---- *)
 Inductive henv := EFrame | EEof | EWerr | EFlush | ETimeout.
@@ -154,15 +162,19 @@ Definition poll (h : hs) (ord : list key) : hs * pres :=
 (* ---- histories ---- *)
 Inductive hop := HCall (c : hcall) | HEnv (k : key) (x : henv) | HPoll (ord : list key).
 
-Definition hstep (h : hs) (o : hop) : hs * pres :=
+Definition hstep_gen (fx : bool) (h : hs) (o : hop) : hs * pres :=
   match o with
-  | HCall c => (call h c, PPending)
+  | HCall c => (call_gen fx h c, PPending)
   | HEnv k x => (env h k x, PPending)
   | HPoll ord => poll h ord
   end.
+Definition hstep := hstep_gen true.
 
-Fixpoint hrun (h : hs) (l : list hop) : list (hs * pres) :=
+Fixpoint hrun_gen (fx : bool) (h : hs) (l : list hop) : list (hs * pres) :=
   match l with
   | [] => []
-  | o :: t => let '(h1, r) := hstep h o in (h1, r) :: hrun h1 t
+  | o :: t => let '(h1, r) := hstep_gen fx h o in (h1, r) :: hrun_gen fx h1 t
   end.
+Definition hrun := hrun_gen true.
+(* the original code *)
+Definition hrun0 := hrun_gen false.
